@@ -26,6 +26,7 @@ pub enum Literals {
     Wide,
 }
 
+#[derive(Clone, Copy)]
 pub struct ExprCfg<'a> {
     pub max_depth: u32,
     pub vars: &'a [String],
